@@ -263,6 +263,7 @@ func checkLoaded(wd g.WarriorData, d asm.Dialect, m int, text string) string {
 }
 
 func runC10(c *Ctx) {
+	defer withDisturb(c)()
 	runPinned(c, "C10")
 	n := int64(120000)
 	if c.Thorough() {
